@@ -16,7 +16,7 @@ FLOOR = {"quick": 1500, "thorough": 15000}
 MUST_REACH = ("resequence_returns_judged", "resequence_raises_judged", "addrgroup_resequence_judged", "grouped_shapes", "mixed_shapes", "calls_after_a_raise", "nested_group_members")
 RULE = ("ACL shapes: flat, grouped by remark prefix (blocks of 1..n items), ACLs with previous numbering (none, partial, "
         "arbitrary, duplicates), 1..14 lines, both platforms; AceGroup objects; address groups of 1..8 members; start in "
-        "{0, 1, 10, random, 2^32-1-n*d-1..+1, 2^32-1, 2^32, -1, -5}, step in {-5, 0, 1, 7, 10, 2^31, random}. judged = "
+        "{0, 1, 10, random, 2^32-1-n*d-1..+1, 2^32-1, 2^32, -1, -5}, step in {-5, 0, 1, 7, 10, 2^31, 2^32-2, 2^32-1, 2^32, 2^40, random}; 8 % one-line objects. judged = "
         "monitor evaluations of outermost calls (normal returns and raises); distinct non-trivial = (class, platform, "
         "shape, start class, step class, outcome)")
 ASSUMPTIONS = ["an empty ACL returns `start` (nothing to number) and is not judged",
@@ -52,6 +52,19 @@ def _strip_seq(line: str) -> str:
 
 def _shape(items):
     return [len(i.items) if type(i).__name__ == "AceGroup" else 0 for i in items]
+
+
+def _client_view(obj) -> dict:
+    """Everything but the numbers, as the caller sees it: nesting, object identity, ids, notes, names, texts."""
+    top = list(obj.items)
+    flat = _flat(top)
+    return {"shape": _shape(top), "top_ids": [id(i) for i in top], "flat_ids": [id(i) for i in flat],
+            "uuids": [i.uuid for i in top] + [i.uuid for i in flat],
+            "notes": [getattr(i, "note", None) for i in top],
+            "names": [getattr(i, "name", None) for i in top],
+            "texts": [_strip_seq(i.line) for i in flat],
+            "own": (getattr(obj, "name", None), getattr(obj, "note", None), obj.uuid, getattr(obj, "group_by", None),
+                    getattr(obj, "type", None), obj.platform)}
 
 
 def _pre(self, args, kwargs):
@@ -166,9 +179,21 @@ def execute(ctx, case: dict) -> None:
             if int(idx) < len(obj.items) and obj.items[int(idx)].addrgroup:
                 obj.items[int(idx)].items = list(items)
                 ctx.count("nested_group_members")
+    for n_grp, grp in enumerate(i for i in obj.items if type(i).__name__ == "AceGroup"):
+        grp.note = f"note-{n_grp}"  # user data on the blocks: resequencing has no business with it
     for start, step in case["calls"]:
+        before = _client_view(obj)
         try:
             obj.resequence(start, step) if step is not None else obj.resequence(start)
+            # the same observation at the client boundary (the tap sits on AceGroup.resequence; whatever a subclass does
+            # around that call is seen only here)
+            after = _client_view(obj)
+            ctx.count("client_boundary_views_compared")
+            if before != after:
+                diff = [k for k in before if before[k] != after[k]]
+                ctx.violation(case, "resequence changed something other than the numbers (seen at the caller's side)",
+                              {"start": start, "step": step, "changed": diff,
+                               "before": str([before[k] for k in diff])[:300], "after": str([after[k] for k in diff])[:300]})
         except ValueError:
             ctx.count("calls_after_a_raise")  # the partial numbering is not judged, the next call on the same object is
         except Exception:  # pylint: disable=broad-except
@@ -177,7 +202,7 @@ def execute(ctx, case: dict) -> None:
 
 
 def _start_step(rng, count: int):
-    step = rng.choice([-5, 0, 1, 1, 7, 10, 10, 100, 2 ** 31, rng.randint(1, 5000)])
+    step = rng.choice([-5, 0, 1, 1, 7, 10, 10, 100, 2 ** 31, rng.randint(1, 5000), MAXSEQ - 1, MAXSEQ, MAXSEQ + 1, 2 ** 40])
     roll = rng.random()
     if roll < 0.35:
         start = rng.choice([1, 10, 10, 100, rng.randint(1, 100000)])
@@ -196,6 +221,21 @@ def gen_cases(ctx):
     while True:
         platform = rng.choice(["ios", "nxos"])
         roll = rng.random()
+        if rng.random() < 0.08:
+            # objects that render exactly one line: any step >= 1 is legal there (the last number is the start)
+            line = grammar.gen_ace(rng, platform, "", allow_multi=False, ws=False, max_k=2, foreign=False)["text"] \
+                if rng.random() < 0.7 else "remark only line"
+            kind = rng.choice(["Acl", "AceGroup", "AddrGroup"])
+            calls = [_start_step(rng, 1) for _ in range(rng.randint(1, 3))]
+            if kind == "Acl":
+                yield {"cls": "Acl", "platform": platform, "text": grammar.acl_header(platform, "ONE") + "\n " + line, "group_by": "",
+                       "calls": calls, "n": 1, "extra": [], "version": ""}
+            elif kind == "AceGroup":
+                yield {"cls": "AceGroup", "platform": platform, "text": line, "calls": calls, "n": 1}
+            else:
+                header = "object-group network G1" if platform == "ios" else "object-group ip address G1"
+                yield {"cls": "AddrGroup", "platform": platform, "text": header + "\n host 10.0.0.1", "calls": calls, "n": 1, "nested": {}}
+            continue
         if roll < 0.7:
             heading = rng.choice([None, "= ", "== ", "#"])
             acl = grammar.gen_acl(rng, platform, headings=heading, ace_kw=dict(allow_multi=False, ws=False, max_k=2),
